@@ -150,6 +150,13 @@ def run(ctx):
             ctx.ob('R12.4', 'prune|tmp removed on error', bool(rm) and rm[0] in b.reach_from(pr), 'a failed prune removes the temp file and leaves the journal untouched', b.loc(rm[0]) if rm else b.loc())
             dr = [x for x in b.reachable() if b.term[x] and b.term[x]['k'] == 'call' and callee_of(b.term[x]) == 'core::mem::drop' and x not in b.reach_from(pr)]
     ctx.floor('R12.4', nchecked, 1, 'JournalReader::open sites in the journal thread')
+    jwc = prog.body(JW + 'create')
+    trunc = jwc.call_blocks('std::fs::File::create')
+    wh = jwc.call_blocks(JW + 'write_header')
+    from .C10 import _only_error_exits
+    okh = bool(trunc) and bool(wh) and (must_pass(jwc, trunc, wh)[0] or _only_error_exits(jwc, wh))
+    ctx.ob('R12.4', 'JournalWriter::create|truncates and writes a header', bool(trunc) and okh and not jwc.call_blocks(JW + 'create_or_append'),
+           'JournalWriter::create starts from an empty file (File::create) and always writes the header; appending to a stale <journal>.tmp left by an interrupted prune yields a malformed journal', jwc.loc())
 
     # ---- R12.5
     hp = [prog.bodies[p] for p in prog.with_closures(CLIENT + 'handle_prune_journal')]
